@@ -311,3 +311,34 @@ def c13_r4(ctx):
                    detail="bound arguments: %s" % got, loc=ctx.nodeloc(f, v))
     if n < 2:
         raise AnalysisError("only %d parse_range implementations" % n)
+
+
+@rule("C13", "R5", "K2", "a date string is cut into fields exactly as far as it is long",
+      min_instances=1, also=("C16",),
+      clause="In DATETIME._parse_datestring every fixed slice qstring[a:b] is read exactly under `len(qstring) >= b` "
+             "(a stricter test drops the last given component and widens the date to the next coarser unit; a laxer one "
+             "reads a short field); the slices tile the string without gap (each starts where the previous one ended).")
+def c13_r5(ctx):
+    prog = ctx.prog
+    f = prog.method("fields.DATETIME", "_parse_datestring", inherited=False)
+    ctx.saw(f)
+    fa = guards.Facts(f)
+    src = f.params[1]
+    # the string may be re-bound once (normalisation of separators); the facts are about the final name
+    seen = []
+    for n in fa.g.nodes:
+        for frag in cfgmod.node_exprs(n):
+            for x in ast.walk(frag):
+                if isinstance(x, ast.Subscript) and isinstance(x.value, ast.Name) and x.value.id == src and isinstance(x.slice, ast.Slice) \
+                        and isinstance(x.slice.upper, ast.Constant) and isinstance(x.slice.upper.value, int):
+                    lo = x.slice.lower.value if isinstance(x.slice.lower, ast.Constant) else 0
+                    hi = x.slice.upper.value
+                    facts = fa.at(n) or frozenset()
+                    ok = ("F", "(len(%s) < %d)" % (src, hi)) in facts or ("T", "(%d == len(%s))" % (hi, src)) in facts or \
+                        ("T", "(len(%s) == %d)" % (src, hi)) in facts
+                    seen.append((lo, hi))
+                    ctx.ob(f, ok, "%s[%d:%d] is read exactly when len(%s) >= %d" % (src, lo, hi, src, hi),
+                           detail="guards here: %s" % sorted(t for t in facts if "len(" in t[1]), loc=ctx.nodeloc(f, x))
+    seen.sort()
+    tiles = all(seen[i][1] == seen[i + 1][0] for i in range(len(seen) - 1)) and bool(seen) and seen[0][0] == 0
+    ctx.ob(f, len(seen) >= 5 and tiles, "the fixed-width fields tile the string from position 0", detail=str(seen))
